@@ -474,7 +474,13 @@ pub fn shape_sweep(rep: &mut Report, thorough: bool) {
         docs.push(json!({"a": v, "f♭": [{"_id": "e", "p": 0}]}));
     }
     // the key "#" (constants::HASH_FIELD) in tracked and untracked positions, with short-hex, long and non-string values
-    for h in [json!("41"), json!("zz"), json!("0123456789abcdef0123456789abcdef0123456789abcdef0123456789abcdef"), json!(7), json!(null)] {
+    // id-less objects under the same flattened key below DIFFERENT owners (the generated identifier depends on the path)
+    docs.push(json!({"f♭": [{"_id": "a", "pos♭": {"k": 1}}, {"_id": "b", "pos♭": {"k": 2}}]}));
+    docs.push(json!({"f♭": [{"_id": "a", "tags♭": [{"k": 1}]}, {"_id": "b", "tags♭": [{"k": 2}]}]}));
+    docs.push(json!({"f♭": {"_id": "a", "pos♭": {"k": 1}}, "g♭": {"_id": "b", "pos♭": {"k": 1}}}));
+    docs.push(json!({"f♭": {"pos♭": {"k": 1}}, "g♭": {"pos♭": {"k": 2}}}));
+    for h in [json!("41"), json!("zz"), json!("0123456789abcdef0123456789abcdef0123456789abcdef0123456789abcdef"), json!(7), json!(null),
+        json!("000000042"), json!("+41"), json!("0041"), json!("ffffffff"), json!("100000000"), json!("0000000000000041"), json!("d"), json!("e"), json!("r")] {
         docs.push(json!({"f♭": [{"_id": "x", "#": h}]}));
         docs.push(json!({"f♭": [{"_id": "x", "#": h, "p": 1}]}));
         docs.push(json!({"f♭": {"#": h, "p": 1}}));
